@@ -626,6 +626,12 @@ var crafted = []string{
 	`{"Root":{"type":"object","required":["a","b"],"properties":{"a":{"type":"string","nullable":true,"default":null},"b":{"type":"integer","nullable":true},"c":{"type":"string","nullable":true,"default":null},"d":{"type":"string","default":"x","minLength":1},"e":{"type":"array","items":{"type":"string"},"nullable":true,"minItems":1},"f":{"type":"object","properties":{"g":{"type":"integer"}},"nullable":true}}}}`,
 	`{"Root":{"type":"object","properties":{"m":{"type":"object","additionalProperties":{"type":"integer","minimum":0},"minProperties":1,"maxProperties":2},"n":{"type":"object","additionalProperties":false,"properties":{"k":{"type":"string"}}},"o":{"type":"object","additionalProperties":{"type":"string","nullable":true}}},"required":["m"],"additionalProperties":false}}`,
 	`{"Root":{"oneOf":[{"$ref":"#/components/schemas/Cat"},{"$ref":"#/components/schemas/Dog"}],"discriminator":{"propertyName":"kind","mapping":{"cat":"#/components/schemas/Cat","dog":"#/components/schemas/Dog"}}},"Cat":{"type":"object","required":["kind","lives"],"properties":{"kind":{"type":"string","enum":["cat"]},"lives":{"type":"integer","minimum":1,"maximum":9}},"additionalProperties":false},"Dog":{"type":"object","required":["kind","bark"],"properties":{"kind":{"type":"string","enum":["dog"]},"bark":{"type":"boolean"}},"additionalProperties":false}}`,
+	// one array / object component referenced as optional member here and as required member (or item) there, in both
+	// declaration orders: what one use decides about the shared type (nil semantic, validators) must not leak into the other
+	`{"Root":{"type":"object","properties":{"tags":{"$ref":"#/components/schemas/List"},"sub":{"$ref":"#/components/schemas/Sub"}}},"Sub":{"type":"object","required":["tags"],"properties":{"tags":{"$ref":"#/components/schemas/List"}}},"List":{"type":"array","items":{"type":"string","minLength":1},"minItems":1,"maxItems":3}}`,
+	`{"Root":{"type":"object","properties":{"sub":{"$ref":"#/components/schemas/Sub"},"tags":{"$ref":"#/components/schemas/List"}}},"Sub":{"type":"object","required":["tags"],"properties":{"tags":{"$ref":"#/components/schemas/List"}}},"List":{"type":"array","items":{"type":"string","minLength":1},"minItems":1,"maxItems":3}}`,
+	`{"Root":{"type":"object","required":["rows"],"properties":{"tags":{"$ref":"#/components/schemas/List"},"rows":{"type":"array","items":{"$ref":"#/components/schemas/List"}},"maybe":{"type":"object","properties":{"tags":{"$ref":"#/components/schemas/List"}},"required":["tags"]}}},"List":{"type":"array","items":{"type":"integer","minimum":0},"minItems":1,"uniqueItems":true}}`,
+	`{"Root":{"type":"object","required":["a"],"properties":{"a":{"$ref":"#/components/schemas/Obj"},"b":{"$ref":"#/components/schemas/Obj"},"zs":{"type":"array","items":{"$ref":"#/components/schemas/Obj"},"maxItems":2}}},"Obj":{"type":"object","required":["k"],"properties":{"k":{"type":"string","maxLength":2},"l":{"$ref":"#/components/schemas/List"}}},"List":{"type":"array","items":{"type":"string"},"minItems":2}}`,
 	`{"Root":{"type":"object","required":["u"],"properties":{"u":{"anyOf":[{"type":"string","minLength":3},{"type":"integer","minimum":10},{"type":"array","items":{"type":"boolean"},"maxItems":2}]}}}}`,
 }
 
